@@ -463,7 +463,7 @@ fn dec_case(ctx: &mut Ctx, s: &[u8], class: &str) -> String {
 
 /// An independent Intel-HEX parser written from the documentation of the format
 /// (not from the implementation, not from the Coq model).
-fn reference_parse(s: &[u8]) -> String {
+pub fn reference_parse(s: &[u8]) -> String {
     let invalid = "ER INVALID".to_string();
     if s.first() != Some(&b':') {
         return invalid;
@@ -1270,6 +1270,29 @@ fn gen_c07(ctx: &mut Ctx) {
                     if end != given {
                         ok = false;
                         detail = "the page no longer exposes the bytes it was built from (header or padding changed)".to_string();
+                    }
+                }
+                ctx.monitor(ok, "C07-pixel-location", &line, &detail);
+            }
+            // the same the other way round: every pixel lit, then one switched off and on again -- exactly its bit goes and
+            // comes back, its neighbours in the same byte stay lit (distinct pixels never share a bit)
+            for chunk in coords.chunks(32).take(if every { 4 } else { 2 }) {
+                let mut line = format!("PG {} {} N.3 A.1", w, h);
+                for (x, y) in chunk {
+                    line.push_str(&format!(" S.{}.{}.0 S.{}.{}.1", x, y, x, y));
+                }
+                let res = ctx.case(line.clone(), true, "pixel-location-all-lit");
+                let toks: Vec<&str> = res.split(' ').collect();
+                let mut ok = true;
+                let mut detail = String::new();
+                for (k, (x, y)) in chunk.iter().enumerate() {
+                    let idx = 4 + (*x as u64) * bpc(h64) + (*y as u64) / 8;
+                    let bit = (*y % 8) as u32;
+                    let want = [format!("{}:{}", idx, 255 - (1u32 << bit)), format!("{}:255", idx)];
+                    if (0..2).any(|j| toks.get(1 + 2 * k + j) != Some(&want[j].as_str())) {
+                        ok = false;
+                        detail = format!("pixel ({},{}) on an all-lit page: expected {:?}, got {:?}", x, y, want, &toks[(1 + 2 * k).min(toks.len())..(3 + 2 * k).min(toks.len())]);
+                        break;
                     }
                 }
                 ctx.monitor(ok, "C07-pixel-location", &line, &detail);
